@@ -172,7 +172,27 @@ def gen_ranges(r, maxn=5, big=False):
 
 
 def gen_word(r, prevword=None, big=False):
-    k = r.weighted([("plain", 3), ("br", 5), ("brtext", 2), ("br2", 2), ("twin", 2 if prevword else 0)])
+    k = r.weighted([("plain", 3), ("br", 5), ("brtext", 2), ("br2", 2), ("twin", 2 if prevword else 0), ("casetwin", 1 if prevword else 0)])
+    if k == "casetwin":
+        # the previous word's prefix with the case of one letter flipped and neighbouring numbers: names differing only in
+        # case are different hosts and must never share a bracket
+        pw = prevword
+        name = pw[1]
+        idx = [i for i in range(len(name)) if name[i:i + 1].isalpha()]
+        if idx:
+            i = r.choice(idx)
+            name = name[:i] + name[i:i + 1].swapcase() + name[i + 1:]
+        if pw[0] == "br":
+            lo_t, hi_t = pw[2][-1]
+            hi = int(hi_t if hi_t is not None else lo_t)
+            w = len(lo_t)
+            span = r.choice([0, 0, 1, 3])
+            hi += r.choice([0, 0, 1, 2])       # directly after the previous range, or leaving a gap
+            first = (fmtw(w, hi + 1), fmtw(w, hi + 1 + span) if span else None)
+            rest = gen_ranges(r, maxn=3, big=big) if r.chance(1, 3) else []
+            return ("br", name, [first] + rest, ("end",))
+        prevword = ("plain", name)
+        k = "twin"
     if k == "twin" and prevword[0] == "br":
         # same prefix again: exercises tail coalescing across words
         return ("br", prevword[1], gen_ranges(r, big=big), ("end",))
